@@ -93,8 +93,9 @@ theorem fa_locate {src c : List Char} {m : Srcmap} (hw : C05.WFMap m) (hs : SegA
     {p a : Nat} (ha : getSourcePosFor m p = .ok a) :
     ∃ i k v, m[i]? = some (k, v) ∧ k ≤ p ∧ a = v + (p - k) ∧ fa_Seg src c (k, v) m[i + 1]? ∧
       ∀ y, m[i + 1]? = some y → p < y.1 := by
-  obtain ⟨i, k, v, h1, h2, h3, h4⟩ := C05.lineOf_spec m hw p
-  rw [C05.getSourcePosFor_of_line m p i k v h1 h2 h3] at ha
+  obtain ⟨i, k, v, h1, h2, h3, h4, e⟩ :=
+    C05.lineOf_spec_tr m hw p (C05.clampFree_of_mono m (fa_seg_mono hs) p)
+  rw [e] at ha
   simp only [Except.ok.injEq] at ha
   exact ⟨i, k, v, h2, h3, ha.symm, segAll_get hs h2, fun y hy => h4 (i + 1) y.1 y.2 (by omega) hy⟩
 
@@ -130,7 +131,7 @@ theorem fa_pfth_of_seg {src c : List Char} {m : Srcmap} (hw : C05.WFMap m)
         · exact hle
     -- so `q` is translated by the same entry
     have hb' : getSourcePosFor m q = .ok (v + (q - k)) := by
-      apply C05.translate_segment m hw q i k v hi (by omega)
+      apply C05.translate_segment_mono m hw (fa_seg_mono hs) q i k v hi (by omega)
       intro k' v' hn1
       rw [hn1] at hnext
       obtain ⟨post', _, hy1, _, _⟩ := hnext
@@ -172,7 +173,7 @@ theorem fa_pfth_of_seg {src c : List Char} {m : Srcmap} (hw : C05.WFMap m)
       have hp := hlt y hn1
       -- `tr y.1 = y.2`
       have hty : getSourcePosFor m y.1 = .ok y.2 := by
-        have := C05.translate_affine m hw (i + 1) y.1 y.2 0 hn1 (by
+        have := C05.translate_affine_mono m hw (fa_seg_mono hs) (i + 1) y.1 y.2 0 hn1 (by
           intro k' v' h2
           obtain ⟨h3, e3⟩ := C05.getElem?_key m (i + 1) y.1 y.2 hn1
           obtain ⟨h4, e4⟩ := C05.getElem?_key m (i + 1 + 1) k' v' h2
